@@ -165,7 +165,7 @@ MANIFEST_TEXT = {
 NOT_APPLICABLE = {}
 
 # engines whose SPEC-tagged disagreements (conformance to the specification beyond the listed properties) are reported by `./check extra`
-EXTRA_ENGINES = [("splitting", "splitting", "run"), ("alg_protocol", "alg_protocol", "run")]
+EXTRA_ENGINES = [("splitting", "splitting", "run"), ("alg_protocol", "alg_protocol", "run"), ("rfassembly", "rfassembly", "run")]
 
 MANIFEST_TEXT["C18"] = {
     "text": "PoissonSearch.tla models the slope bisection on a float lattice with an arbitrary (non-monotone) acceleration function; TLC checks OkIsWithinTol and the liveness property Terminates (the loop without the collapse test is kept as a negative control that must fail). poisson() is run on the real code with _poisson wrapped under a watchdog; every call (probes as slope ranks + integer facts about the mask, RNG state crc, reproducibility memo) is validated by TLC against PoissonTrace.tla.",
